@@ -335,7 +335,7 @@ def check(rep: Report, tier: str, seed: int) -> None:
 
     # ---- 1. event-stream + installed-Hamiltonian correspondence
     lines, expect, meta = [], [], []
-    ncase = 70 if quick else 2500
+    ncase = 55 if quick else 1000
     for ci in range(ncase):
         c = gen_case(rng, nmax=7 if (not quick or ci % 3 == 0) else 5)
         full = total_progress_calls(c["n"], c["ns"])
@@ -409,7 +409,7 @@ def check(rep: Report, tier: str, seed: int) -> None:
     rep.extra["d1_variant_hits"] = d1_hits
 
     # ---- 2. dense-evolution oracle on the real back-end (always on)
-    ndense = 7 if quick else 60
+    ndense = 6 if quick else 40
     worst = 0.0
     t0 = time.time()
     for _ in range(ndense):
